@@ -21,11 +21,15 @@ type StyleDef struct {
 	ID      string   `json:"id"`
 	Idx     int      `json:"idx"` // value code (0..11), distinct per style of a case
 	Type    string   `json:"type"`
-	BasedOn string   `json:"based_on,omitempty"`  // "" = no w:basedOn
-	Elems   []string `json:"elems"`               // subset of ElemNames
-	EmptyP  bool     `json:"empty_ppr,omitempty"` // paragraph properties present although no paragraph element is set
-	EmptyR  bool     `json:"empty_rpr,omitempty"`
-	Via     string   `json:"via"` // add: literal + AddStyle; custom: CreateCustomStyle then properties; quick: QuickStyleAPI.CreateQuickStyle
+	BasedOn string   `json:"based_on,omitempty"` // "" = no w:basedOn
+	Elems   []string `json:"elems"`              // subset of ElemNames
+	// Attrs: for the elements that have several attributes (MultiAttr), which of them this definition populates
+	// (bit k = k-th name of MultiAttr[element]); an element without an entry carries the pattern legacyMask derives
+	// from Idx (the cases saved before this field existed keep their meaning).
+	Attrs  map[string]int `json:"attrs,omitempty"`
+	EmptyP bool           `json:"empty_ppr,omitempty"` // paragraph properties present although no paragraph element is set
+	EmptyR bool           `json:"empty_rpr,omitempty"`
+	Via    string         `json:"via"` // add: literal + AddStyle; custom: CreateCustomStyle then properties; quick: QuickStyleAPI.CreateQuickStyle
 }
 
 type Case struct {
@@ -82,11 +86,121 @@ func (d StyleDef) hasAnyRun() bool {
 	return false
 }
 
-func line(i int) *style.ParagraphBorderLine {
-	return &style.ParagraphBorderLine{Val: "single", Color: fmt.Sprintf("00%02X00", i), Sz: fmt.Sprint(4 + i), Space: "1"}
+// MultiAttr names, per element with more than one attribute (or one optional attribute), the attributes a definition
+// may or may not populate. For borders the first four are the sides present and the last four the attributes every
+// present side populates. For underline and snapToGrid (one optional attribute) the second bit means "the bare element".
+var MultiAttr = map[string][]string{
+	"spacing":     {"before", "after", "line", "lineRule"},
+	"indentation": {"firstLine", "left", "right"},
+	"borders":     {"top", "left", "bottom", "right", "val", "color", "sz", "space"},
+	"shading":     {"fill", "val"},
+	"font":        {"ascii", "eastAsia", "hAnsi", "cs"},
+	"underline":   {"val", "bare"},
+	"snapToGrid":  {"val", "bare"},
 }
 
-// props builds the property blocks of a definition (fresh values on every call).
+// MultiElems in a fixed order (labels and generator draws must not depend on map iteration).
+var MultiElems = []string{"spacing", "indentation", "borders", "shading", "font", "underline", "snapToGrid"}
+
+// fullMask: every attribute populated.
+func fullMask(e string) int {
+	switch e {
+	case "underline", "snapToGrid":
+		return 1
+	}
+	return 1<<len(MultiAttr[e]) - 1
+}
+
+// legacyMask is the attribute pattern the definitions had before Attrs existed (a function of the value code).
+func legacyMask(e string, i int) int {
+	m := 0
+	bit := func(k int, on bool) {
+		if on {
+			m |= 1 << k
+		}
+	}
+	switch e {
+	case "spacing":
+		bit(0, true)
+		bit(1, i%2 == 0)
+		bit(2, i%3 == 0)
+		bit(3, i%3 == 0)
+	case "indentation":
+		bit(0, i%2 == 1)
+		bit(1, true)
+		bit(2, i%3 == 1)
+	case "borders":
+		bit(0, true)
+		bit(1, i&1 != 0)
+		bit(2, i&2 != 0)
+		bit(3, i&4 != 0)
+		m |= 0xF0
+	case "font":
+		bit(0, true)
+		bit(1, i%2 == 0)
+		bit(2, i%3 == 0)
+		bit(3, i%3 == 0)
+	default:
+		m = fullMask(e)
+	}
+	return m
+}
+
+// mask gives the attribute set of element e in this definition, normalised to a usable one.
+func (d StyleDef) mask(e string) int {
+	m, ok := d.Attrs[e]
+	if !ok {
+		return legacyMask(e, d.Idx)
+	}
+	switch e {
+	case "underline", "snapToGrid":
+		if m&1 != 0 {
+			return 1
+		}
+		return 2
+	case "borders":
+		m &= 0xFF
+		if m&0x0F == 0 {
+			m |= 0x01
+		}
+		if m&0xF0 == 0 {
+			m |= 0xF0
+		}
+		return m
+	}
+	m &= fullMask(e)
+	if m == 0 {
+		m = fullMask(e)
+	}
+	return m
+}
+
+var (
+	lineRules = []string{"auto", "exact", "atLeast"}
+	bdrVals   = []string{"single", "double", "dashed", "dotted"}
+	shdVals   = []string{"clear", "solid", "pct10"}
+)
+
+// pick returns v when bit k of m is set, "" otherwise.
+func pick(m, k int, v string) string {
+	if m&(1<<k) != 0 {
+		return v
+	}
+	return ""
+}
+
+// line builds one border side; i encodes the defining style and the side, am (4 bits) the populated attributes.
+func line(i, am int) *style.ParagraphBorderLine {
+	return &style.ParagraphBorderLine{
+		Val:   pick(am, 0, bdrVals[(i/16)%len(bdrVals)]),
+		Color: pick(am, 1, fmt.Sprintf("00%02X00", i)),
+		Sz:    pick(am, 2, fmt.Sprint(4+i)),
+		Space: pick(am, 3, fmt.Sprint(1+i%16)),
+	}
+}
+
+// props builds the property blocks of a definition (fresh values on every call). Every populated attribute value is a
+// function of Idx, so a resolved attribute tells which style it came from.
 func (d StyleDef) props() (*style.ParagraphProperties, *style.RunProperties) {
 	i := d.Idx
 	var p *style.ParagraphProperties
@@ -98,41 +212,41 @@ func (d StyleDef) props() (*style.ParagraphProperties, *style.RunProperties) {
 		r = &style.RunProperties{}
 	}
 	for _, e := range d.Elems {
+		m := d.mask(e)
 		switch e {
 		case "spacing":
-			s := &style.Spacing{Before: fmt.Sprint(100 + i)}
-			if i%2 == 0 {
-				s.After = fmt.Sprint(200 + i)
+			p.Spacing = &style.Spacing{
+				Before:   pick(m, 0, fmt.Sprint(100+i)),
+				After:    pick(m, 1, fmt.Sprint(200+i)),
+				Line:     pick(m, 2, fmt.Sprint(240+i)),
+				LineRule: pick(m, 3, lineRules[i%len(lineRules)]),
 			}
-			if i%3 == 0 {
-				s.Line, s.LineRule = fmt.Sprint(240+i), "auto"
-			}
-			p.Spacing = s
 		case "indentation":
-			s := &style.Indentation{Left: fmt.Sprint(400 + i)}
-			if i%2 == 1 {
-				s.FirstLine = fmt.Sprint(300 + i)
+			p.Indentation = &style.Indentation{
+				FirstLine: pick(m, 0, fmt.Sprint(300+i)),
+				Left:      pick(m, 1, fmt.Sprint(400+i)),
+				Right:     pick(m, 2, fmt.Sprint(500+i)),
 			}
-			if i%3 == 1 {
-				s.Right = fmt.Sprint(500 + i)
-			}
-			p.Indentation = s
 		case "alignment":
 			p.Justification = &style.Justification{Val: jcVals[i%len(jcVals)]}
 		case "borders":
-			b := &style.ParagraphBorder{Top: line(i)}
-			if i&1 != 0 {
-				b.Left = line(i + 16)
+			b := &style.ParagraphBorder{}
+			am := m >> 4
+			if m&1 != 0 {
+				b.Top = line(i, am)
 			}
-			if i&2 != 0 {
-				b.Bottom = line(i + 32)
+			if m&2 != 0 {
+				b.Left = line(i+16, am)
 			}
-			if i&4 != 0 {
-				b.Right = line(i + 48)
+			if m&4 != 0 {
+				b.Bottom = line(i+32, am)
+			}
+			if m&8 != 0 {
+				b.Right = line(i+48, am)
 			}
 			p.ParagraphBorder = b
 		case "shading":
-			p.Shading = &style.Shading{Fill: fmt.Sprintf("%02XEEEE", i), Val: "clear"}
+			p.Shading = &style.Shading{Fill: pick(m, 0, fmt.Sprintf("%02XEEEE", i)), Val: pick(m, 1, shdVals[i%len(shdVals)])}
 		case "keepNext":
 			p.KeepNext = &style.KeepNext{}
 		case "keepLines":
@@ -142,13 +256,13 @@ func (d StyleDef) props() (*style.ParagraphProperties, *style.RunProperties) {
 		case "outlineLevel":
 			p.OutlineLevel = &style.OutlineLevel{Val: fmt.Sprint(i % 10)}
 		case "snapToGrid":
-			p.SnapToGrid = &style.SnapToGrid{Val: fmt.Sprint(i % 2)}
+			p.SnapToGrid = &style.SnapToGrid{Val: pick(m, 0, fmt.Sprint(i%2))}
 		case "bold":
 			r.Bold = &style.Bold{}
 		case "italic":
 			r.Italic = &style.Italic{}
 		case "underline":
-			r.Underline = &style.Underline{Val: ulVals[i%len(ulVals)]}
+			r.Underline = &style.Underline{Val: pick(m, 0, ulVals[i%len(ulVals)])}
 		case "strike":
 			r.Strike = &style.Strike{}
 		case "size":
@@ -156,14 +270,12 @@ func (d StyleDef) props() (*style.ParagraphProperties, *style.RunProperties) {
 		case "colour":
 			r.Color = &style.Color{Val: fmt.Sprintf("0000%02X", i)}
 		case "font":
-			f := &style.FontFamily{ASCII: fmt.Sprintf("Font%d", i)}
-			if i%2 == 0 {
-				f.EastAsia = fmt.Sprintf("東%d", i)
+			r.FontFamily = &style.FontFamily{
+				ASCII:    pick(m, 0, fmt.Sprintf("Font%d", i)),
+				EastAsia: pick(m, 1, fmt.Sprintf("東%d", i)),
+				HAnsi:    pick(m, 2, fmt.Sprintf("H%d", i)),
+				CS:       pick(m, 3, fmt.Sprintf("C%d", i)),
 			}
-			if i%3 == 0 {
-				f.HAnsi, f.CS = fmt.Sprintf("H%d", i), fmt.Sprintf("C%d", i)
-			}
-			r.FontFamily = f
 		case "highlight":
 			r.Highlight = &style.Highlight{Val: hlVals[i%len(hlVals)]}
 		}
@@ -194,11 +306,36 @@ func (d StyleDef) quickConfig() style.QuickStyleConfig {
 	for _, e := range d.Elems {
 		switch e {
 		case "spacing":
+			if m, drawn := d.Attrs[e]; drawn && m&15 != 0 {
+				// the drawn attribute set, as far as the configuration can say it (a line spacing always brings its rule)
+				if m&1 != 0 {
+					cfg.ParagraphConfig.SpaceBefore = 1 + i
+				}
+				if m&2 != 0 {
+					cfg.ParagraphConfig.SpaceAfter = 21 + i
+				}
+				if m&12 != 0 {
+					cfg.ParagraphConfig.LineSpacing = 1 + float64(i)/4
+				}
+				break
+			}
 			cfg.ParagraphConfig.SpaceBefore = 1 + i
 			if i%2 == 0 {
 				cfg.ParagraphConfig.LineSpacing = 1 + float64(i)/4
 			}
 		case "indentation":
+			if m, drawn := d.Attrs[e]; drawn && m&7 != 0 {
+				if m&1 != 0 {
+					cfg.ParagraphConfig.FirstLineIndent = 41 + i
+				}
+				if m&2 != 0 {
+					cfg.ParagraphConfig.LeftIndent = 1 + i
+				}
+				if m&4 != 0 {
+					cfg.ParagraphConfig.RightIndent = 61 + i
+				}
+				break
+			}
 			cfg.ParagraphConfig.LeftIndent = 1 + i
 		case "alignment":
 			cfg.ParagraphConfig.Alignment = jcVals[i%len(jcVals)]
@@ -338,6 +475,200 @@ func Observe(s *style.Style) map[string]string {
 	}
 	return m
 }
+
+// elemOf gives the pointer a style value holds for a formatting element (an invalid or nil Value when it has none).
+func elemOf(s *style.Style, e string) reflect.Value {
+	if s == nil {
+		return reflect.Value{}
+	}
+	if isPara(e) {
+		p := s.ParagraphPr
+		if p == nil {
+			return reflect.Value{}
+		}
+		switch e {
+		case "spacing":
+			return reflect.ValueOf(p.Spacing)
+		case "indentation":
+			return reflect.ValueOf(p.Indentation)
+		case "alignment":
+			return reflect.ValueOf(p.Justification)
+		case "borders":
+			return reflect.ValueOf(p.ParagraphBorder)
+		case "shading":
+			return reflect.ValueOf(p.Shading)
+		case "keepNext":
+			return reflect.ValueOf(p.KeepNext)
+		case "keepLines":
+			return reflect.ValueOf(p.KeepLines)
+		case "pageBreak":
+			return reflect.ValueOf(p.PageBreak)
+		case "outlineLevel":
+			return reflect.ValueOf(p.OutlineLevel)
+		case "snapToGrid":
+			return reflect.ValueOf(p.SnapToGrid)
+		}
+		return reflect.Value{}
+	}
+	r := s.RunPr
+	if r == nil {
+		return reflect.Value{}
+	}
+	switch e {
+	case "bold":
+		return reflect.ValueOf(r.Bold)
+	case "italic":
+		return reflect.ValueOf(r.Italic)
+	case "underline":
+		return reflect.ValueOf(r.Underline)
+	case "strike":
+		return reflect.ValueOf(r.Strike)
+	case "size":
+		return reflect.ValueOf(r.FontSize)
+	case "colour":
+		return reflect.ValueOf(r.Color)
+	case "font":
+		return reflect.ValueOf(r.FontFamily)
+	case "highlight":
+		return reflect.ValueOf(r.Highlight)
+	}
+	return reflect.Value{}
+}
+
+// fieldDiff walks two values of one type in step and lists every leaf where they differ ("path: a vs b"); nothing is
+// skipped except, when xmlNames is false, the XMLName bookkeeping fields. It stops after max entries.
+func fieldDiff(a, b reflect.Value, path string, xmlNames bool, out *[]string, max int) {
+	if len(*out) >= max {
+		return
+	}
+	add := func(f string, x ...interface{}) { *out = append(*out, path+": "+fmt.Sprintf(f, x...)) }
+	if a.IsValid() != b.IsValid() {
+		add("present on one side only")
+		return
+	}
+	if !a.IsValid() {
+		return
+	}
+	if a.Type() != b.Type() {
+		add("type %s vs %s", a.Type(), b.Type())
+		return
+	}
+	switch a.Kind() {
+	case reflect.Ptr, reflect.Interface:
+		if a.IsNil() || b.IsNil() {
+			if a.IsNil() != b.IsNil() {
+				x, y := "nil", "nil"
+				if !a.IsNil() {
+					x = Render(a.Interface())
+				}
+				if !b.IsNil() {
+					y = Render(b.Interface())
+				}
+				add("%s vs %s", x, y)
+			}
+			return
+		}
+		fieldDiff(a.Elem(), b.Elem(), path, xmlNames, out, max)
+	case reflect.Struct:
+		t := a.Type()
+		for i := 0; i < t.NumField(); i++ {
+			if t.Field(i).Name == "XMLName" && !xmlNames {
+				continue
+			}
+			fieldDiff(a.Field(i), b.Field(i), path+"."+t.Field(i).Name, xmlNames, out, max)
+		}
+	case reflect.Slice, reflect.Array:
+		if a.Len() != b.Len() {
+			add("length %d vs %d", a.Len(), b.Len())
+			return
+		}
+		for i := 0; i < a.Len(); i++ {
+			fieldDiff(a.Index(i), b.Index(i), fmt.Sprintf("%s[%d]", path, i), xmlNames, out, max)
+		}
+	case reflect.Map:
+		if a.IsNil() != b.IsNil() || a.Len() != b.Len() {
+			add("map of %d (nil=%v) vs map of %d (nil=%v)", a.Len(), a.IsNil(), b.Len(), b.IsNil())
+			return
+		}
+		keys := a.MapKeys()
+		sort.Slice(keys, func(x, y int) bool { return fmt.Sprint(keys[x]) < fmt.Sprint(keys[y]) })
+		for _, k := range keys {
+			bv := b.MapIndex(k)
+			if !bv.IsValid() {
+				add("key %v on one side only", k)
+				continue
+			}
+			fieldDiff(a.MapIndex(k), bv, fmt.Sprintf("%s[%v]", path, k), xmlNames, out, max)
+		}
+	case reflect.String:
+		if a.String() != b.String() {
+			add("%q vs %q", a.String(), b.String())
+		}
+	case reflect.Bool:
+		if a.Bool() != b.Bool() {
+			add("%v vs %v", a.Bool(), b.Bool())
+		}
+	default:
+		if x, y := fmt.Sprintf("%#v", a), fmt.Sprintf("%#v", b); x != y {
+			add("%s vs %s", x, y)
+		}
+	}
+}
+
+// attrsOf lists the populated attributes of a multi-attribute element of a definition (name -> value; the sides of
+// borders are flattened to "top.val" ...). Used for labels and messages only.
+func attrsOf(s *style.Style, e string) map[string]string {
+	out := map[string]string{}
+	set := func(k, v string) {
+		if v != "" {
+			out[k] = v
+		}
+	}
+	v := elemOf(s, e)
+	if !v.IsValid() || v.IsNil() {
+		return nil
+	}
+	switch x := v.Interface().(type) {
+	case *style.Spacing:
+		set("before", x.Before)
+		set("after", x.After)
+		set("line", x.Line)
+		set("lineRule", x.LineRule)
+	case *style.Indentation:
+		set("firstLine", x.FirstLine)
+		set("left", x.Left)
+		set("right", x.Right)
+	case *style.ParagraphBorder:
+		for _, sd := range []struct {
+			n string
+			l *style.ParagraphBorderLine
+		}{{"top", x.Top}, {"left", x.Left}, {"bottom", x.Bottom}, {"right", x.Right}} {
+			if sd.l != nil {
+				set(sd.n, "present")
+				set(sd.n+".val", sd.l.Val)
+				set(sd.n+".color", sd.l.Color)
+				set(sd.n+".sz", sd.l.Sz)
+				set(sd.n+".space", sd.l.Space)
+			}
+		}
+	case *style.Shading:
+		set("fill", x.Fill)
+		set("val", x.Val)
+	case *style.FontFamily:
+		set("ascii", x.ASCII)
+		set("eastAsia", x.EastAsia)
+		set("hAnsi", x.HAnsi)
+		set("cs", x.CS)
+	case *style.Underline:
+		set("val", x.Val)
+	case *style.SnapToGrid:
+		set("val", x.Val)
+	}
+	return out
+}
+
+// attrTotal: how many attributes attrsOf can report for a fully populated element.
+var attrTotal = map[string]int{"spacing": 4, "indentation": 3, "borders": 20, "shading": 2, "font": 4, "underline": 1, "snapToGrid": 1}
 
 // pointers collects the addresses of everything reachable from v through pointers (zero-size targets skipped).
 // Paths are recorded only when withPaths is set (the second, explaining pass).
